@@ -10,6 +10,7 @@ static int op_reset(int argc, char **argv)
    bits_reset();
    template_reset();
    ieee_reset();
+   codec_reset_all();
    bufr_set_debug(0);
    bufr_set_verbose(0);
    fputs("ok", bvp_out);
@@ -17,7 +18,7 @@ static int op_reset(int argc, char **argv)
    }
 static struct op_entry ops_core[] = { { "reset", op_reset }, { NULL, NULL } };
 
-static struct op_entry *tables[] = { ops_core, ops_bits, ops_template, ops_ieee, NULL };
+static struct op_entry *tables[] = { ops_core, ops_bits, ops_template, ops_ieee, ops_codec, NULL };
 
 int bvp_parse_hex(const char *s, unsigned char **out)
    {
